@@ -47,11 +47,11 @@ def monitor(hdr, cmd, pre, res, post, info, tconst):
     ret, calls, herr, thrown = res
     fl, arch, hk = hdr["fl"], hdr["arch"], hdr["h"]
     where = "%s/%s" % (ARCH[arch], FL[fl])
-    kind = "I" if cmd[0] == "J" else cmd[0]
+    kind = "I" if cmd[0] in ("J", "K") else cmd[0]
     failed = ret != 0 or thrown
     setter = kind in ("O", "X", "M")
     if failed:
-        if kind == "B" and fl == 0 and ret == tconst["kInvalidDisplacement"]:
+        if kind == "B" and fl == 0 and ret == tconst["kInvalidDisplacement"] and persistent_of(pre) != persistent_of(post):
             out.append(("C14/bind-invalid-displacement-binds-label",
                         "bind() reported kInvalidDisplacement but the label is bound afterwards (%s)" % where))
         elif persistent_of(pre) != persistent_of(post):
@@ -112,7 +112,7 @@ def run_shard(args):
         complete = rc == 0 and "END" in lines[-2:]
         # sessions fully printed
         nF = sum(1 for l in lines if l.startswith("F "))
-        feed = [l for l in lines if l[:2] in ("T ", "N ") or (l[:2] == "C " and " | R " in l and " | S " in l and " #" in l)]
+        feed = [l for l in lines if l[:2] in ("T ", "N ", "P ") or (l[:2] == "C " and " | R " in l and " | S " in l and " #" in l)]
         if not complete:
             # drop the lines of the unfinished session
             lastN = max([i for i, l in enumerate(feed) if l.startswith("N ")] + [0])
@@ -126,7 +126,7 @@ def run_shard(args):
         if rcm != 0 or len(mlines) != len(feed):
             res["crash"].append({"what": "model driver failed", "detail": (outm[-300:] + errm[-300:]), "session": cur})
             mlines = mlines + ["?"] * (len(feed) - len(mlines))
-        hdr = None; pre = None; sess = None; idx = 0
+        hdr = None; pre = None; sess = None; idx = 0; sess_hdr = {}
         for a, b in zip(feed, mlines):
             if a[0] == "T":
                 tv = [int(x) for x in a.split()[1:]]
@@ -134,12 +134,23 @@ def run_shard(args):
                 if a != b:
                     res["disagree"].append({"session": cur, "call": -1, "cmd": "T", "impl": a, "model": b})
                 continue
+            if a[0] == "P":
+                res["probes"] = a[2:]
+                if a != b:
+                    res["disagree"].append({"session": cur, "call": -1, "cmd": "P", "impl": a, "model": b})
+                continue
             if a[0] == "N":
                 t = a.split()
                 sess = int(t[1]); idx = 0
-                hdr = {"fl": int(t[2][3:]), "arch": int(t[3][5:]), "h": int(t[4][2:])}
+                kv = dict(x.split("=", 1) for x in t[2:t.index("|")])
+                hdr = {"fl": int(kv["fl"]), "arch": int(kv["arch"]), "h": int(kv["h"]), "hloc": int(kv.get("hloc", 0)), "fm": int(kv.get("fm", 0))}
+                sess_hdr[sess] = hdr
                 pre = a.split("| S ")[1]
                 cfg = "%s/%s/%s" % (ARCH[hdr["arch"]], FL[hdr["fl"]], HK[hdr["h"]])
+                if hdr["hloc"]:
+                    res["classes"]["session: handler attached to the CodeHolder"] = res["classes"].get("session: handler attached to the CodeHolder", 0) + 1
+                if hdr["fm"]:
+                    res["classes"]["session: Compiler function body with virtual registers"] = res["classes"].get("session: Compiler function body with virtual registers", 0) + 1
                 res["by_cfg"][cfg] = res["by_cfg"].get(cfg, 0) + 1
                 res["sessions"] += 1
                 if "S " + strip_hash(pre) != b:
@@ -165,6 +176,11 @@ def run_shard(args):
                 res["classes"][key] = res["classes"].get(key, 0) + 1
                 if not failed:
                     res["ok_insts"] += 1
+            if "xsec-fixup" in info:
+                res["classes"]["cross-section reference to a bound label (holder-level fixup)"] = res["classes"].get("cross-section reference to a bound label (holder-level fixup)", 0) + 1
+            if cmd[0] == "K":
+                key = "mem-path add r32,[mem]/%s" % ("err %d" % r[0] if failed else "ok %s bytes" % (int(post.split("sz=")[1].split()[0].split(",")[int(post.split("cur=")[1].split()[0])]) - int(pre.split("sz=")[1].split()[0].split(",")[int(pre.split("cur=")[1].split()[0])])))
+                res["classes"][key] = res["classes"].get(key, 0) + 1
             if cmd[0] == "J":
                 key = "rel-path kind %s/%s" % (cmd[1], "err %d" % r[0] if failed else "ok")
                 res["classes"][key] = res["classes"].get(key, 0) + 1
@@ -184,6 +200,32 @@ def run_shard(args):
             if l.startswith("F "):
                 res["fresh_checked"] += 1
                 t = l.split()
+                # finalize() of Builder/Compiler (serialization / register allocation): error, exception and handler protocol
+                fkv = dict(x.split("=", 1) for x in t[2:])
+                h = sess_hdr.get(int(t[1]))
+                if h is not None and h["fl"] != 0 and "fcalls" in fkv:
+                    e1 = int(fkv["fin"].split("/")[0]); fc1 = int(fkv["fcalls"].split("/")[0])
+                    thrown = bool(e1 & 0x10000); err = e1 & 0xFFFF
+                    k0 = "finalize/%s" % ("ok" if e1 == 0 else "error thrown" if thrown else "error returned")
+                    res["classes"][k0] = res["classes"].get(k0, 0) + 1
+                    where = "%s/%s" % (ARCH[h["arch"]], FL[h["fl"]])
+                    if e1 == 0 and fc1 != 0:
+                        res["viol"].append({"key": "C14/%s/finalize/handler-called-on-success" % where, "what": "finalize() succeeded but invoked the error handler %d times" % fc1,
+                                            "session": int(t[1]), "call": -1, "cmd": "F", "info": l})
+                    if e1 != 0:
+                        if thrown != (h["h"] == 3 and fc1 > 0):
+                            res["viol"].append({"key": "C14/%s/finalize/throw-mismatch" % where, "what": "finalize() failed with error %d: handler kind %s, handler calls %d, exception observed: %s" % (
+                                err, HK[h["h"]], fc1, thrown), "session": int(t[1]), "call": -1, "cmd": "F", "info": l})
+                        exp = 0 if h["h"] == 0 else 1
+                        if h["hloc"] and fc1 != exp:
+                            res["viol"].append({"key": "C14/%s/finalize/handler-called-%d-times" % (where, fc1), "what": "finalize() failed with error %d and the handler attached to the "
+                                                "CodeHolder was invoked %d times (expected %d)" % (err, fc1, exp), "session": int(t[1]), "call": -1, "cmd": "F", "info": l})
+                        if not h["hloc"] and h["h"] != 0 and fc1 != 1:
+                            kf = "finalize with emitter-attached handler: error not reported (%d calls)" % fc1
+                            res["classes"][kf] = res["classes"].get(kf, 0) + 1
+                            res["viol"].append({"key": "C14/finalize/error-bypasses-emitter-handler", "what": "Builder/Compiler finalize() returned error %d but the ErrorHandler attached to the "
+                                                "emitter itself was invoked %d times (the internal Assembler only knows the CodeHolder's handler)" % (err, fc1),
+                                                "session": int(t[1]), "call": -1, "cmd": "F", "info": l})
                 if t[2] != "same=1" or t[3] != "replay_fail=0" or t[4] != "fin_same=1":
                     detail = " / ".join(x for x in lines[i + 1:i + 5] if x.startswith("FD"))
                     res["viol"].append({"key": "C14/fresh-emitter-differs", "what": "after the session's failed calls the recycled emitter differs from a fresh one given only "
@@ -192,10 +234,16 @@ def run_shard(args):
             break
         # the process died inside session cur+nF: name the call
         bad = cur + nF
-        rc2, out2, err2 = vlib.sh([impl, str(seed), str(bad), "1", "v"], timeout=600)
+        env2 = dict(os.environ); env2["UBSAN_OPTIONS"] = "print_stacktrace=1"
+        rc2, out2, err2 = vlib.sh([impl, str(seed), str(bad), "1", "v"], timeout=600, env=env2)
         runs = [l for l in err2.split("\n") if l.startswith("RUN ")]
         summ = re.findall(r"SUMMARY: (.*)", err2) or re.findall(r"runtime error: (.*)", err2) or ["signal/exit rc=%d" % rc2]
         loc = re.findall(r"(\w+\.(?:cpp|h)):(\d+)", " ".join(re.findall(r"(?:SUMMARY:|runtime error).*|^.*runtime error.*$", err2, re.M)) or err2[-2000:])
+        # prefer the first stack frame outside the support headers (bit_test / shifts live there) as the location
+        frames = re.findall(r"#\d+ 0x[0-9a-f]+ in .*? (/\S+?):(\d+)", err2)
+        frames = [(os.path.basename(f), l) for f, l in frames if os.path.basename(f) not in ("support.h", "support_p.h") and "/harness/" not in f]
+        if frames and (not loc or loc[0][0] in ("support.h", "support_p.h")):
+            loc = [frames[0]]
         res["crash"].append({"what": "sanitizer/abort", "session": bad, "input": runs[-1] if runs else "?", "summary": summ[0][:300],
                              "where": "%s:%s" % loc[0] if loc else "?", "rc": rc2, "stderr_tail": err2[-1500:] if not runs else ""})
         cur = bad + 1
@@ -209,6 +257,8 @@ def merge(total, r):
     for k in ("calls", "sessions", "failed_calls", "ok_insts", "fresh_checked", "nontrivial", "thrown"):
         total[k] = total.get(k, 0) + r[k]
     total["skipped_sessions"] = total.get("skipped_sessions", 0) + r.get("skipped_sessions", 0)
+    if r.get("probes"):
+        total["probes"] = r["probes"]
     for k in ("by_kind", "by_cfg", "err_codes", "classes"):
         d = total.setdefault(k, {})
         for kk, v in r[k].items():
@@ -227,6 +277,34 @@ def failing_sites(ck, text):
     return [(n, int(l), [int(x) for x in re.findall(r"-?\d+", idx)][:8]) for n, l, idx in found], out[-1500:]
 
 
+GEN_MINE = ["X86Sigs.v", "C14Tables.v", "C14TableProofs.v", "C14MemPathModel.v", "C14MemPathProofs.v"]   # dependency order
+
+
+def regen_mine(ck, files):
+    """Like vlib.Check.coq_regen, but recompiles only the coq/gen files Properties_C14 depends on (the shared routine
+    recompiles every builder's generated file, minutes of work whenever /repo's tables move). Returns None when the
+    regenerated text equals the committed snapshot, else (gen_dir, failed_files, log)."""
+    import shutil
+    gen = os.path.join(vlib.COQ, "gen")
+    if all(os.path.exists(os.path.join(gen, n)) and open(os.path.join(gen, n)).read() == t for n, t in files.items()):
+        return None
+    wgen = os.path.join(ck.work, "gen")
+    shutil.rmtree(wgen, ignore_errors=True)
+    os.makedirs(wgen)
+    for n in GEN_MINE:
+        shutil.copy(os.path.join(gen, n), wgen)
+    for n, t in files.items():
+        open(os.path.join(wgen, n), "w").write(t)
+    args = ["-Q", os.path.join(vlib.COQ, "theories"), "Verif", "-Q", wgen, "VerifGen", "-w", "-all"]
+    failed, log = [], ""
+    for n in GEN_MINE:
+        rc, out, err = vlib.sh(["coqc"] + args + [os.path.join(wgen, n)], cwd=wgen, timeout=900)
+        if rc != 0:
+            failed.append(n)
+            log += (out + err)[-3000:]
+    return wgen, failed, log
+
+
 def run(ck):
     sys.setrecursionlimit(10000)
     # ---------------------------------------------------------------- translator tie + theorems
@@ -237,7 +315,7 @@ def run(ck):
         a64_names = {i: n for i, n in enumerate(names)}
     except Exception:
         pass
-    r = ck.coq_regen({"C14Tables.v": text})
+    r = regen_mine(ck, {"C14Tables.v": text})
     gen_dir = None
     if r is not None:
         gen_dir, failed_files, log = r
@@ -270,7 +348,7 @@ def run(ck):
         if sess is None:
             print("replay record has no session (proof/translator violation):", rp); return 0
         rc, out, err = vlib.sh([impl, str(seed), str(sess), "1", "v"], timeout=600)
-        feed = [l for l in out.split("\n") if l[:2] in ("T ", "N ", "C ")]
+        feed = [l for l in out.split("\n") if l[:2] in ("T ", "P ", "N ", "C ")]
         rcm, outm, errm = vlib.sh([model], inp="\n".join(feed) + "\n")
         ml = outm.split("\n")
         for i, (a, b) in enumerate(zip(feed, ml)):
@@ -293,6 +371,20 @@ def run(ck):
     with ProcessPoolExecutor(max_workers=min(16, vlib.NPROC)) as ex:
         for rr in ex.map(run_shard, jobs):
             merge(total, rr)
+    # dedicated probe (kept out of the sessions because it aborts the process while the defect is present)
+    rcp, outp, errp = vlib.sh([impl, "probe-rwsize"], timeout=300)
+    if rcp != 0 or "END" not in outp:
+        summ = re.findall(r"runtime error: (.*)", errp) or re.findall(r"SUMMARY: (.*)", errp) or ["rc=%d" % rcp]
+        ck.violation("C14/compiler-rwinfo-size-shift", "x86 Compiler: `test r32(size field 199), r32` is accepted by the validator and finalize() reaches undefined behaviour in "
+                     "query_rw_info (lsb_mask<uint64_t>(size) for a size field > 64): %s" % summ[0][:200], {"command": "c14_harness probe-rwsize", "stderr": errp[-800:]})
+    for mode, key, what in (("probe-rwindex", "C14/compiler-a64-rwinfo-index-shift", "a64 Compiler: `add x, x(element index 10, type D), x` is accepted into the function body and finalize() "
+                             "reaches undefined behaviour in a64 query_rw_info (`<< (element_index * element_size)` >= 64)"),
+                            ("probe-raphys", "C14/compiler-a64-phys-id-ge-32", "a64 Compiler: a physical register id 40 is accepted into the function body (AArch64 has no operand validator) and "
+                             "finalize() reaches undefined behaviour in the register allocator's 32-bit register sets")):
+        rcp, outp, errp = vlib.sh([impl, mode], timeout=300)
+        if rcp != 0 or "END" not in outp:
+            summ = re.findall(r"runtime error: (.*)", errp) or re.findall(r"SUMMARY: (.*)", errp) or ["rc=%d" % rcp]
+            ck.violation(key, "%s: %s" % (what, summ[0][:200]), {"command": "c14_harness " + mode, "stderr": errp[-800:]})
     rc, outw, errw = sweep_future.result()
     sweep_pool.shutdown()
     if rc != 0 or "END" not in outw[-10:]:
@@ -360,10 +452,11 @@ def run(ck):
          "calls_by_kind": total.get("by_kind"), "sessions_by_config": total.get("by_cfg"), "instruction_classes": total.get("classes"),
          "error_codes_seen": {str(k): v for k, v in sorted(total.get("err_codes", {}).items())},
          "model_vs_impl_disagreements": len(total["disagree"]), "traces_validated_against_impl": total["calls"],
-         "a64_register_id_sweep": sweep,
+         "a64_register_id_sweep": sweep, "implementation_probes": total.get("probes"),
          "lookup_sites": tinfo["sites"], "lookup_tables": tinfo["tables"], "a64_encoding_sites": tinfo["a64_encoding_sites"],
          "unsupported": {"a64_encodings_without_single_EncodingData_table": tinfo["a64_encodings_unsupported"],
-                         "x86 opcode_mm_table look-up (index depends on the encoding class)": 1,
+                         "x86 opcode_mm_table look-up for x87 rows and for opcodes built from constants inside _emit": "not data-driven; constants have mm < 16 by the Opcode enum",
+                         "a64_encodings_without_any_EncodingData_lookup": tinfo.get("a64_encodings_without_table_lookup"),
                          "memory safety outside the instrumented look-ups": "explored by the sanitizer runs only (testing, not proof)"},
          "tables_regenerated_differ_from_snapshot": r is not None},
         assumptions=["theorems are about the Gallina model (EmitStateModel.v: state machine of one call, the instruction encoder's verdict is a parameter); "
